@@ -20,7 +20,12 @@ def make_flags(args: Optional[List[str]] = None, **opts: Any) -> argparse.Namesp
     """The repository's own flag initialisation (plugin loading included)."""
     from proxy.common.flag import FlagParser
     base = ['--num-workers', '1', '--num-acceptors', '1']
-    return FlagParser.initialize(base + list(args or []), **opts)
+    # options FlagParser.initialize() does not take from keyword arguments must go through the command line
+    for key, flag in (('max_sendbuf_size', '--max-sendbuf-size'),):
+        if key in opts:
+            base += [flag, str(opts.pop(key))]
+    flags = FlagParser.initialize(base + list(args or []), **opts)
+    return flags
 
 
 class L1:
